@@ -19,7 +19,12 @@ def gen_namespace_case(r, i):
     namespace with lower-cased keys and a stack of selected namespaces"""
     store = [dict() for _ in NS]
     out = []            # expected values appended to tr (tr lives in missionNamespace and is reached explicitly)
-    names = ['gv', 'Abc', 'x_1']
+    # three names per case: fixed ones and ones drawn over the whole alphabet (both ends included), so that the case
+    # folding of every letter is exercised; the `v_` prefix keeps them clear of operator names
+    letters = 'abcdefghijklmnopqrstuvwxyz'
+    names = [r.choice(['gv', 'Abc', 'x_1', 'SafeZone', 'maxz', 'ZZ', 'aZ09_z']),
+             'v_' + ''.join(r.choice(letters) for _ in range(1 + r.below(3))) + r.choice(['', 'z', 'a', '_9']),
+             'V_' + ''.join(r.choice(letters) for _ in range(2)).upper()]
 
     def block(depth, cur):
         stmts = []
@@ -64,7 +69,7 @@ def gen_namespace_case(r, i):
 
 def gen_spawn_case(r, i):
     """spawned code must not see the starter's locals (and vice versa)"""
-    locs = ['_a', '_b', '_Count']
+    locs = ['_a', '_b', '_Count', '_sizeZ']
     parts = ['tr = []']
     for v in locs:
         if r.chance(2, 3):
